@@ -55,12 +55,20 @@ public:
     _timestamp_format = std::move(timestamp_format);
     _time_zone = timezone;
 
-    if (_timestamp_format.find("%X") != std::string::npos)
+    if ((_timestamp_format.find("%X") != std::string::npos) || (_timestamp_format.find("%EX") != std::string::npos))
     {
       QUILL_THROW(QuillError("`%X` as format modifier is not currently supported in format: " + _timestamp_format));
     }
 
-    // We first look for some special format modifiers and replace them
+    // We first look for some special format modifiers and replace them.
+    // Every conversion that renders the time of day has to end up as one of the modifiers we
+    // track below, otherwise it is cached as constant text until the next recalculation
+    _replace_all(_timestamp_format, "%Ec", "%c");
+    _replace_all(_timestamp_format, "%c", "%a %b %e %H:%M:%S %Y");
+    _replace_all(_timestamp_format, "%OH", "%H");
+    _replace_all(_timestamp_format, "%OI", "%I");
+    _replace_all(_timestamp_format, "%OM", "%M");
+    _replace_all(_timestamp_format, "%OS", "%S");
     _replace_all(_timestamp_format, "%r", "%I:%M:%S %p");
     _replace_all(_timestamp_format, "%R", "%H:%M");
     _replace_all(_timestamp_format, "%T", "%H:%M:%S");
